@@ -32,6 +32,7 @@ type Case struct {
 	// distinctive probe values
 	ID, Rest, QName, T1, T2, H1, H2, XName, Ck, FName string
 	JSONBody                                          bool
+	CEnc                                              string `json:",omitempty"` // Content-Encoding of the probe: "" | identity | utf-8 | compress (none of them a supported compression: the body is taken as is)
 	Fillers                                           []Filler
 }
 
@@ -172,8 +173,12 @@ func (cs Case) probeWire() string {
 		body = fmt.Sprintf(`{"name":"%s","tags":["%s","%s"]}`, cs.FName, cs.T1, cs.T2)
 		ct = "application/json"
 	}
-	return fmt.Sprintf("POST /u/%s/%s?probe=1&name=%s&tags=%s&tags=%s HTTP/1.1\r\nHost: %s.%s.example.com\r\nX-Name: %s\r\nCookie: ck=%s; other=%s\r\nX-Forwarded-For: 1.2.3.4, 5.6.7.8\r\nContent-Type: %s\r\nContent-Length: %d\r\n\r\n%s",
-		cs.ID, cs.Rest, cs.QName, cs.T1, cs.T2, cs.H1, cs.H2, cs.XName, cs.Ck, cs.T1, ct, len(body), body)
+	ce := ""
+	if cs.CEnc != "" {
+		ce = "Content-Encoding: " + cs.CEnc + "\r\n"
+	}
+	return fmt.Sprintf("POST /u/%s/%s?probe=1&name=%s&tags=%s&tags=%s HTTP/1.1\r\nHost: %s.%s.example.com\r\nX-Name: %s\r\nCookie: ck=%s; other=%s\r\nX-Forwarded-For: 1.2.3.4, 5.6.7.8\r\n%sContent-Type: %s\r\nContent-Length: %d\r\n\r\n%s",
+		cs.ID, cs.Rest, cs.QName, cs.T1, cs.T2, cs.H1, cs.H2, cs.XName, cs.Ck, cs.T1, ce, ct, len(body), body)
 }
 
 func (f Filler) wire() string {
@@ -268,6 +273,9 @@ func check(cs Case) vk.Verdict {
 	}
 	sort.Strings(v.Classes)
 	v.NonTrivial = len(hot) > 0
+	if cs.CEnc != "" {
+		v.Classes = append(v.Classes, "probe-content-encoding")
+	}
 	return v
 }
 
@@ -277,7 +285,8 @@ func word(t *rapid.T, label string, lo, hi int) string {
 
 func genCase(t *rapid.T) Case {
 	cs := Case{ID: word(t, "id", 3, 9), Rest: word(t, "rest", 3, 9), QName: word(t, "qn", 3, 9), T1: word(t, "t1", 2, 5), T2: word(t, "t2", 2, 5),
-		H1: word(t, "h1", 2, 5), H2: word(t, "h2", 2, 5), XName: word(t, "xn", 3, 9), Ck: word(t, "ck", 3, 9), FName: word(t, "fn", 3, 9), JSONBody: rapid.IntRange(0, 3).Draw(t, "json") == 0}
+		H1: word(t, "h1", 2, 5), H2: word(t, "h2", 2, 5), XName: word(t, "xn", 3, 9), Ck: word(t, "ck", 3, 9), FName: word(t, "fn", 3, 9), JSONBody: rapid.IntRange(0, 3).Draw(t, "json") == 0,
+		CEnc: rapid.SampledFrom([]string{"", "", "", "identity", "utf-8", "compress"}).Draw(t, "cenc")}
 	n := rapid.IntRange(1, 20).Draw(t, "nfill")
 	up := func(label string, lo, hi int) string { return strings.ToUpper(word(t, label, lo, hi)) }
 	for i := 0; i < n; i++ {
